@@ -58,12 +58,14 @@ Fixpoint map_opt {A B} (f : A -> option B) (l : list A) : option (list B) :=
   | x :: r => match f x, map_opt f r with Some y, Some ys => Some (y :: ys) | _, _ => None end
   end.
 
-Fixpoint zero_fields (env : list tydef) (t : N) : option (list value) :=
-  match env with
+(* zero values only depend on the struct declarations (signatures) *)
+Fixpoint zero_sig (sg : list (N * list gotype)) (t : N) : option (list value) :=
+  match sg with
   | [] => None
-  | td :: rest => if ty_id td =? t then map_opt (zero_of (zero_fields rest)) (ty_fields td)
-                  else zero_fields rest t
+  | (id, gs) :: rest => if id =? t then map_opt (zero_of (zero_sig rest)) gs else zero_sig rest t
   end.
+Definition sigs_of_env (env : list tydef) : list (N * list gotype) := map (fun td => (ty_id td, ty_fields td)) env.
+Definition zero_fields (env : list tydef) : N -> option (list value) := zero_sig (sigs_of_env env).
 
 (* ------------------------------------------------------------------------------------ *)
 Section Stmts.
